@@ -235,8 +235,17 @@ def o_text_roundtrip(case):
     vers = versions(code, kind)
     if vers is None:
         return ["skip-undefined-kind"]
-    full = R.Node(case["k"], None, bytes.fromhex(case["c"]), case["depth"], bytes.fromhex(case["pfp"]), case["index"])
     private = bool(case["private"])
+    depth, pfp = case["depth"], bytes.fromhex(case["pfp"])
+    if case.get("echo"):
+        # the payload begins with the same bytes as a version prefix: depth byte and parent fingerprint repeat the version
+        # that is (echo 1) or is not (echo 2) being written, or (echo 3) the tail of the version and the depth byte
+        v = vers[0 if (case["echo"] != 2) == private else 1]
+        if case["echo"] == 3:
+            depth, pfp = v[3], pfp
+        else:
+            depth, pfp = v[0], v[1:4] + pfp[3:]
+    full = R.Node(case["k"], None, bytes.fromhex(case["c"]), depth, pfp, case["index"])
     ref = full if private else full.public()
     text = R.text(ref, private, vers[0] if private else vers[1])
     where = "%s.parse.%s(%r)" % (code, kind, text)
@@ -276,15 +285,16 @@ def s_text_roundtrip():
     small_k = st.integers(1, 2**248 - 1)
     tiny_k = st.integers(1, 2**16)
     return st.builds(
-        lambda pr, k, c, depth, pfp, index, private, child: {
+        lambda pr, k, c, depth, pfp, index, private, child, echo: {
             "net": pr[0], "kind": pr[1], "k": k, "c": c, "depth": depth, "pfp": pfp, "index": index,
-            "private": int(private), "child": child},
+            "private": int(private), "child": child, "echo": echo},
         pair, st.one_of(common.scalars(), small_k, tiny_k),
         st.one_of(common.hexbytes(32, 32), st.sampled_from(["00" * 32, "ff" * 32, "00" * 31 + "01"])),
         st.one_of(st.sampled_from([0, 1, 2, 254, 255]), st.integers(0, 255)),
         st.one_of(common.hexbytes(4, 4), st.just("00000000")),
         st.one_of(st.sampled_from([0, 1, 2**24 - 1, 2**24, HARD - 1, HARD, HARD + 1, 2**32 - 1]), st.integers(0, 2**32 - 1)),
-        st.sampled_from([1, 1, 0]), st.tuples(indices(), st.sampled_from([0, 0, 1])).map(list))
+        st.sampled_from([1, 1, 0]), st.tuples(indices(), st.sampled_from([0, 0, 1])).map(list),
+        st.sampled_from([0] * 9 + [1, 1, 2, 3]))
 
 
 # ---------------------------------------------------------------------------------------------------------------
